@@ -26,7 +26,9 @@ func (t *Transport) RoundTrip(req *http.Request) (resp *http.Response, err error
 	if err != nil {
 		return
 	}
-	if resp.ProtoMajor != 3 && t.altSvcJar != nil {
+	// an alternative service is only learned from (and used for) an https origin: the HTTP/3 round tripper refuses
+	// the http scheme, so an entry learned from a cleartext response made every later request to that origin fail
+	if resp.ProtoMajor != 3 && t.altSvcJar != nil && req.URL != nil && req.URL.Scheme == "https" {
 		if v := resp.Header.Get("alt-svc"); v != "" {
 			t.handleAltSvc(req, v)
 		}
